@@ -216,7 +216,12 @@ def run_script(sc, max_loops=60000):
             bg[op[1]].install_task(when=net.vt.now + op[2])
         elif op[0] == "run":
             net.run(until=net.vt.now + op[1], max_loops=max_loops)
-    ok = net.run(until=net.vt.now + sc.get("horizon", 100.0), max_loops=max_loops)
+    # the IOCB layer serialises the requests per peer: the horizon has to cover every request submitted
+    # (script and chain) running out of retries one after the other, plus the segment-timer ladder
+    per_request = ((a.device.numberOfApduRetries + 1) * (a.device.apduTimeout / 1000.0)
+                   + (a.device.numberOfApduRetries + 1) * 4 * a.device.apduSegmentTimeout / 1000.0 + 2.0)
+    ok = net.run(until=net.vt.now + sc.get("horizon", 100.0 + (len(sent) + len(sc.get("chain", []))) * per_request),
+                 max_loops=max_loops)
     for t in bg:
         t.suspend_task()
     ok = net.run(until=net.vt.now + 1.0, max_loops=max_loops) and ok
